@@ -881,7 +881,13 @@ class BackendZ3(Backend):
 
     def _unsat_core(self, s):
         cores = s.unsat_core()
-        return [impl.children()[1] for impl in s.assertions() if impl.children()[0] in cores]
+        # for an assertion that was tracked before the solver was cloned (translate), Z3 reports the constraint itself
+        # instead of its tracking literal
+        return [
+            impl.children()[1]
+            for impl in s.assertions()
+            if impl.children()[0] in cores or impl.children()[1] in cores
+        ]
 
     @condom
     def _primitive_from_model(self, model, expr):
